@@ -702,11 +702,32 @@ class EvHarness:
                 self.rec(ctx, uid + "/returns-its-disposable", isinstance(res, Opaque) and res.name == "from-schedule_relative")
             return
         args = [action, st0] if name == "schedule" else [d, action, st0]
+        fields0 = dict(o.fields)
         res = it.call(it.get_attr(o, name), args, {})
         self.rec(ctx, uid + "/exactly-one-timer", len(timers) == 1)
         if len(timers) != 1:
             return
         t = timers[0]
+        # TimeoutScheduler is a per-class SINGLETON shared by every pipeline of the process: what a call needs later (its timer) lives
+        # in the call's own closure, not on the object
+        changed = sorted(k for k in set(o.fields) | set(fields0) if o.fields.get(k, NOTSET) is not fields0.get(k, NOTSET))
+        self.rec(ctx, uid + "/keeps-no-per-call-state-on-the-shared-scheduler-object", not changed,
+                 detail=f"fields written by the call: {changed} - the next call overwrites them, and the disposable returned by this one then acts on the other call's timer")
+        if ctx.choose(2, "another action is scheduled before this one is disposed") == 1:
+            action2 = Opaque("callback", "action2")
+            res2 = it.call(it.get_attr(o, name), ([action2, st0] if name == "schedule" else [ctx.fresh("delay2", "int"), action2, st0]), {})
+            ok2 = len(timers) == 2
+            self.rec(ctx, uid + "/second-call/has-a-timer-of-its-own", ok2)
+            if ok2:
+                n1 = len(w.log)
+                if isinstance(res, Obj):
+                    it.call(it.get_attr(res, "dispose"), [], {})
+                evs = w.log[n1:]
+                cancelled = [e[1] for e in evs if e[0] == "timer.cancel"]
+                self.rec(ctx, uid + "/second-call/disposing-the-first-cancels-exactly-the-first-timer", cancelled == [t] or (len(cancelled) >= 1 and all(x is t for x in cancelled)),
+                         detail=f"cancelled: {[x.name for x in cancelled]}")
+            _ = res2
+            return
         iv = t.attrs["interval"]
         if name == "schedule":
             self.rec(ctx, uid + "/timer-fires-at-once", iv == 0 or (isinstance(iv, float) and iv == 0.0))
